@@ -10,6 +10,7 @@ import (
 	"github.com/internetarchive/Zeno/internal/pkg/controler/pause"
 	"github.com/internetarchive/Zeno/internal/pkg/log"
 	"github.com/internetarchive/Zeno/internal/pkg/stats"
+	"github.com/internetarchive/Zeno/internal/pkg/verifhook"
 	"github.com/internetarchive/Zeno/pkg/models"
 )
 
@@ -85,6 +86,9 @@ func (p *postprocessor) worker(workerID string) {
 	controlChans := pause.Subscribe()
 	defer pause.Unsubscribe(controlChans)
 
+	verifhook.At("post.start", workerID)
+	defer verifhook.At("post.exit", workerID)
+
 	for {
 		select {
 		case <-p.ctx.Done():
@@ -92,10 +96,13 @@ func (p *postprocessor) worker(workerID string) {
 			return
 		case <-controlChans.PauseCh:
 			logger.Debug("received pause event")
+			verifhook.At("post.paused", workerID)
 			controlChans.ResumeCh <- struct{}{}
+			verifhook.At("post.woken", workerID)
 			logger.Debug("received resume event")
 		case seed, ok := <-p.inputCh:
 			if ok {
+				verifhook.At("post.take", seed, workerID)
 				logger.Debug("received seed", "seed", seed.GetShortID())
 
 				if err := seed.CheckConsistency(); err != nil {
@@ -106,6 +113,7 @@ func (p *postprocessor) worker(workerID string) {
 					logger.Debug("skipping seed", "seed", seed.GetShortID(), "depth", seed.GetDepth(), "hops", seed.GetURL().GetHops(), "status", seed.GetStatus().String())
 				} else {
 					outlinks := postprocess(workerID, seed)
+					verifhook.At("post.done", seed, workerID, outlinks)
 					for i := range outlinks {
 						select {
 						case <-p.ctx.Done():
@@ -118,6 +126,7 @@ func (p *postprocessor) worker(workerID string) {
 				}
 
 				closeBodies(seed)
+				verifhook.At("post.closed", seed, workerID)
 
 				select {
 				case <-p.ctx.Done():
